@@ -397,7 +397,7 @@ func (ex *Exec) recordWrite(st *State, heap string, ref T) {
 	ex.heapWrites[heap] = true
 	if ex.P.immutHeaps[heap] && ex.con != nil {
 		ex.nimm++
-		ex.vc.oblige("immut", fmt.Sprintf("immut:%s:%s:%d", ex.conName(), heap, ex.nimm), st.guard, Gt(ref, ex.ghostGet(ex.entry, "alloc")), ex.pos(token.NoPos)).Note = "field declared immutable is written only on objects allocated by this call"
+		ex.vc.oblige("immut", fmt.Sprintf("immut:%s:%s:%d", ex.conName(), heap, ex.nimm), st.guard, Gt(ref, ex.ghostGet(ex.entry, "alloc")), ex.pos(token.NoPos)).SetNote("field declared immutable is written only on objects allocated by this call")
 	}
 	if ex.onWrite != nil {
 		ex.onWrite(st, heap, ref)
